@@ -9,7 +9,7 @@ for d in sorted(glob.glob('/verif/seeded/*/meta.json')):
     p = m['property']
     def det(ev):
         return {c: v.get('detected') for c, v in ev.get('checks', {}).items()}
-    first = det(evs[0]) if evs else {}
+    first = next((det(ev) for ev in evs if p in ev.get('checks', {})), {})
     last = {}
     for ev in evs:
         last.update({c: v for c, v in det(ev).items()})
